@@ -14,8 +14,8 @@ from ginsim import probes, sched, shrink, world
 
 ID = 'C01'
 LEVEL = 'exploration'
-QUICK_RUNS = 5000
-THOROUGH_RUNS = 120000
+QUICK_RUNS = 15000
+THOROUGH_RUNS = 400000
 SHRINK_BUDGET = 250
 ALLOW_REQUIRED = False
 RULE = ('run i draws from Random("<seed>/C01/<i>") 1-4 probes (function, class '
